@@ -327,6 +327,12 @@ func DB3ToMCAP(w io.Writer,
 			return fmt.Errorf("failed to write channel info: %w", err)
 		}
 	}
+	// topics whose type is not a message type (services, actions) are not converted; the messages
+	// query joins every topic, so their messages must be skipped rather than written.
+	convertedTopics := make(map[uint16]bool, len(topics))
+	for _, t := range topics {
+		convertedTopics[t.id] = true
+	}
 	seq := make(map[uint16]uint32)
 	err = transformMessages(db, func(rows *sql.Rows) error {
 		var topicID uint16
@@ -339,6 +345,9 @@ func DB3ToMCAP(w io.Writer,
 		)
 		if err != nil {
 			return err
+		}
+		if !convertedTopics[topicID] {
+			return nil
 		}
 		err = writer.WriteMessage(&mcap.Message{
 			ChannelID:   topicID,
